@@ -224,8 +224,14 @@ def judge_group(ctx, r, stats):
     if not run.get("finite", True):
       stats["nonfinite"] += 1
     errs = run.get("max_root_error") or []
-    if any((e != e) or e >= FAIL_THRESHOLD for e in errs):
-      stats["ambiguous_skipped"] += 1      # a root was rejected: value legitimately kept
+    # a root was rejected (reported error NaN or >= threshold): the old value is legitimately kept and
+    # the schedule is skipped.  Only refresh steps count: on every other step the diagnostics must be
+    # bit-identical to the previous step's (part of the property), so a sentinel written there is not
+    # evidence of a rejection (a seeded change hid behind this skip before)
+    refresh_errs = [e for t, e in enumerate(errs) if t >= len(iv) or t % iv[t] == 0] \
+        if len(errs) == len(run.get("bits") or []) else errs
+    if any((e != e) or e >= FAIL_THRESHOLD for e in refresh_errs):
+      stats["ambiguous_skipped"] += 1
       continue
     m = run.get("model", {})
     bad = []
